@@ -161,6 +161,26 @@ pub fn c18_icc_shuffles_match_spec() {
 }
 
 // @prop C18
+// @tier thorough
+// @unit jxl_color::icc::decode::{shuffle2,shuffle4}
+// @sym byte strings of every length 10..=17 (lengths enumerated, contents symbolic)
+// @bound lengths 10 to 17
+// @oblig as c18_icc_shuffles_match_spec
+#[kani::proof]
+#[kani::unwind(19)]
+pub fn c18_icc_shuffles_match_spec_longer() {
+    shuffle_case::<10>();
+    shuffle_case::<11>();
+    shuffle_case::<12>();
+    shuffle_case::<13>();
+    shuffle_case::<14>();
+    shuffle_case::<15>();
+    shuffle_case::<16>();
+    shuffle_case::<17>();
+    kani::cover!(true, "all lengths executed");
+}
+
+// @prop C18
 // @tier quick
 // @unit jxl_color::icc::decode::predict_header
 // @sym every header position 0..128, any output size, any 128 header bytes
